@@ -14,12 +14,27 @@ The TCP leg (frame codec) belongs to the frames cluster (C10, Model/Frame.v)."""
 import os, sys, json, glob
 import vlib, wire_lib as W
 
-THEOREMS = []
+THEOREMS = [
+    'C14_codec_command', 'C14_codec_response', 'C14_decode_encode_command',
+    'C14_decode_encode_response', 'C14_size_command', 'C14_size_response',
+    'C14_encode_injective_command', 'C14_encode_injective_response', 'C14_encode_total_command',
+    'C14_encode_total_response', 'C14_send_size_panics_iff_command', 'C14_send_size_panics_iff_response',
+    'C14_size_panics_before_epoch', 'C14_fifo', 'C14_fifo_quiescent',
+    'C14_account', 'C14_drained', 'C14_no_underflow',
+    'C14_wait_loop_sub_ok', 'C14_fetch_sub_ok', 'C14_no_overflow',
+    'C14_admission', 'C14_admission_loop', 'C14_oversize',
+    'C14_progress', 'C14_progress_recv_decreases', 'C14_progress_wait_keeps',
+    'C14_progress_admitted_at_zero', 'C14_sender_never_stuck', 'C14_bounded',
+    'C14_run_reach']
 
 RULE = ('bincode: every Command/Response variant with random field values from boundary sets (u32/u64 extremes, '
         'UTF-8 of every width, times 0 .. i64::MAX and before the epoch), payload lengths 0,1,..,65536 and 4 MiB-1, 4 MiB, '
         '4 MiB+1; decoder on the encodings, their truncations, single-byte mutations, cross-type decodes and hand-made corner '
-        'cases; a case is non-trivial when the message has at least one field; distinct by request line. ')
+        'cases; a case is non-trivial when the message has at least one field; distinct by request line. '
+        'channel: every valid schedule over {send 0/1/2/3 bytes, recv, try_recv} up to length 4 (quick) / 6 (thorough) for capacities 0..3, '
+        'random schedules for capacity 0, 1, smaller than one message, exactly one message, large and the shipped 100 MiB, 4 MiB+ chunk '
+        'messages around the capacity, each drained at the end; two-thread runs with thousands of messages and seeded yields; '
+        'every schedule with at least one send is non-trivial.')
 
 
 # ------------------------------------------------------------------------------------------------
@@ -164,7 +179,240 @@ def run_decode(run, binary, jbin, tier, encs):
 
 
 # ------------------------------------------------------------------------------------------------
+# channel
+class Sim:
+    """Reference behaviour written from the property text: a FIFO of (id, size); a send is held back exactly
+    while more than the capacity is already queued; the accounted size of a drained channel is zero."""
+    def __init__(self, cap):
+        self.cap, self.queue, self.pending, self.next_id = cap, [], None, 1
+
+    def queued(self):
+        return sum(z for _, z in self.queue)
+
+    def send(self, size):
+        m = (self.next_id, size)
+        self.next_id += 1
+        if self.queued() > self.cap:
+            self.pending = m
+            return 'blocked'
+        self.queue.append(m)
+        return 'ok'
+
+    def recv(self):
+        m = self.queue.pop(0)
+        sfx = ''
+        if self.pending is not None:
+            if self.queued() > self.cap:
+                sfx = ',b'
+            else:
+                self.queue.append(self.pending)
+                self.pending = None
+                sfx = ',u'
+        return m[0], sfx
+
+
+def gen_single(rng, cap, sizes, length):
+    sim = Sim(cap)
+    ops = []
+    for _ in range(length):
+        choices = ['t', 'u', 'q']
+        if sim.queue:
+            choices += ['r', 'r', 'r']
+        if sim.pending is None:
+            choices += ['s'] * 6
+        c = rng.choice(choices)
+        if c == 's':
+            z = rng.choice(sizes)
+            ops.append('s%d' % z)
+            sim.send(z)
+        elif c in 'rt':
+            ops.append(c)
+            if sim.queue:
+                sim.recv()
+        else:
+            ops.append(c)
+    return finish_ops(sim, ops)
+
+
+def finish_ops(sim, ops):
+    """Drain and read the counter."""
+    while sim.queue:
+        ops.append('r')
+        sim.recv()
+    return ops + ['u', 'q', 't']
+
+
+def enum_single(alphabet, maxlen):
+    """All valid schedules over the alphabet up to maxlen (no recv on an empty queue, no send while one is blocked)."""
+    out = []
+
+    def go(prefix):
+        if prefix:
+            out.append(list(prefix))
+        if len(prefix) == maxlen:
+            return
+        for a in alphabet:
+            go(prefix + [a])
+    go([])
+    return out
+
+
+def valid_for(cap, ops):
+    sim = Sim(cap)
+    for o in ops:
+        if o[0] == 's':
+            if sim.pending is not None:
+                return None
+            sim.send(int(o[1:]))
+        elif o == 'r':
+            if not sim.queue:
+                return None
+            sim.recv()
+        elif o == 't' and sim.queue:
+            sim.recv()
+    return finish_ops(sim, list(ops))
+
+
+def single_oracle(cap, ops, answer):
+    """The property on what the real channel did under this schedule."""
+    toks = answer.split(' ')
+    if len(toks) != len(ops):
+        return 'answer has %d tokens for %d operations' % (len(toks), len(ops))
+    sim = Sim(cap)
+    for o, t in zip(ops, toks):
+        if o[0] == 's':
+            q = sim.queued()
+            want = sim.send(int(o[1:]))
+            if t != 's:' + want:
+                if want == 'ok':
+                    return 'send of %s was held back with only %d bytes queued (capacity %d)%s' % (
+                        o[1:], q, cap, ' - oversize message into an empty channel' if q == 0 else '')
+                return 'send of %s was admitted with %d bytes already queued (capacity %d)' % (o[1:], q, cap)
+        elif o in 'rt':
+            if not sim.queue:
+                if o == 't' and t.startswith('t:empty'):
+                    continue
+                return 'receive on an empty channel answered ' + t
+            mid, sfx = sim.recv()
+            if not t.startswith(o + ':'):
+                return 'bad token ' + t
+            got = t[2:].split(',')
+            if got[0] != str(mid):
+                return 'received message %s, expected message %d (exactly once, in order)' % (got[0], mid)
+            gs = (',' + got[1]) if len(got) > 1 else ''
+            if gs != sfx:
+                if sfx == ',u':
+                    return 'blocked sender still held back with %d bytes queued (capacity %d)' % (sim.queued(), cap)
+                return 'blocked sender state %r, expected %r' % (gs, sfx)
+        elif o == 'u':
+            if not sim.queue and sim.pending is None and t != 'u:0':
+                return 'channel drained but accounted size is ' + t[2:]
+    return None
+
+
+def run_parallel(binary, lines, wait_ms, nproc=8):
+    import concurrent.futures
+    if not lines:
+        return []
+    k = max(1, min(nproc, vlib.NPROC, len(lines) // 20 + 1))
+    chunks = [lines[i::k] for i in range(k)]
+    with concurrent.futures.ThreadPoolExecutor(max_workers=k) as ex:
+        res = list(ex.map(lambda ch: vlib.harness(binary, 'channel', ch, args=[str(wait_ms)], timeout=1500), chunks))
+    out = [None] * len(lines)
+    for j, r in enumerate(res):
+        if len(r) != len(chunks[j]):
+            raise vlib.BrokenTie('channel harness answered %d of %d lines' % (len(r), len(chunks[j])))
+        for i, a in enumerate(r):
+            out[j + i * k] = a
+    return out
+
+
+def run_channel(run, binary, jbin, tier, extra_scenarios=()):
+    rng = run.rng
+    scen = []    # (cap, ops, kind, wait)
+    for cap, ops in extra_scenarios:
+        scen.append((cap, ops, 'corpus'))
+    # exhaustive small scope
+    alphabet = ['s0', 's1', 's2', 's3', 'r', 't']
+    for ops in enum_single(alphabet, 4 if tier == 'quick' else 6):
+        for cap in (0, 1, 2, 3):
+            v = valid_for(cap, ops)
+            if v is not None and any(o[0] == 's' for o in ops):
+                scen.append((cap, v, 'exhaustive'))
+    # random schedules: capacity 0, 1, smaller than one message, exactly one message, large
+    families = [(0, [0, 1, 5, 13]), (1, [0, 1, 2, 13]), (10, [13, 29, 100]), (13, [13]), (13, [0, 1, 12, 13, 14, 26]),
+                (100, [0, 1, 13, 50, 99, 100, 101]), (4096, [1, 4095, 4096, 4097, 13]), (1 << 20, [0, 13, 4096, 65536]),
+                (104857600, [13, 65536, 1 << 20])]
+    n_rand = 25 if tier == 'quick' else 250
+    for cap, sizes in families:
+        for _ in range(n_rand):
+            scen.append((cap, gen_single(rng, cap, sizes, rng.choice([5, 10, 20, 40])), 'random'))
+    # the largest file chunk (4 MiB + message overhead) against capacities around it
+    big = 4 * 1024 * 1024 + 13
+    for cap in ([0, big - 1, big, 2 * big] if tier == 'quick' else [0, 1, big - 1, big, big + 1, 2 * big, 104857600]):
+        scen.append((cap, valid_for(cap, ['s%d' % big, 's%d' % big, 's1', 'u', 'r', 'u', 's%d' % (big + 1), 'r', 'r']) or
+                     finish_ops(Sim(cap), ['s%d' % big]), 'chunk-size'))
+        scen.append((cap, finish_ops(Sim(cap), ['s%d' % big]), 'chunk-size'))
+    lines = ['S %d %s' % (cap, ' '.join(ops)) for cap, ops, _ in scen]
+    model = W.judge(jbin, lines)
+    impl = run_parallel(binary, lines, 5)
+    # a short observation window can only err towards "blocked": re-run disagreeing schedules with a long one
+    redo = [i for i, (sc, il, ml) in enumerate(zip(scen, impl, model)) if il != ml or single_oracle(sc[0], sc[1], il)]
+    run.count('channel:rerun-with-long-window', len(redo))
+    if redo:
+        again = vlib.harness(binary, 'channel', [lines[i] for i in redo], args=['600'], timeout=1500)
+        for i, a in zip(redo, again):
+            impl[i] = a
+    for (cap, ops, kind), line, il, ml in zip(scen, lines, impl, model):
+        run.count('channel:' + kind)
+        run.count('channel-cap:%s' % (cap if cap < 200 else '>=200'))
+        if 'blocked' in il:
+            run.count('channel:schedules-with-a-blocked-send')
+        run.case(line, True, sample={'schedule': line[:200], 'impl': il[:200], 'model': ml[:200]} if kind == 'random' and 'blocked' in il else None)
+        run.traces_validated += 1
+        bad = single_oracle(cap, ops, il)
+        if bad:
+            run.fail('C14 channel: ' + bad, {'driver': 'channel', 'schedule': line, 'impl': il})
+        elif il != ml:
+            run.broke('correspondence', 'channel-schedule', json.dumps({'schedule': line[:600], 'impl': il[:600], 'model': ml[:600]}))
+    run_two_threads(run, binary, tier)
+
+
+def run_two_threads(run, binary, tier):
+    rng = run.rng
+    runs = []
+    n = 3000 if tier == 'quick' else 20000
+    for cap, sizes in [(0, [1]), (0, [0, 5, 1]), (1, [1, 2]), (10, [13, 3, 0, 29]), (13, [13]), (64, [13, 40, 64, 65, 1]),
+                       (4096, [13, 4097, 100]), (1 << 20, [13, 65536]), (104857600, [13, 4096])]:
+        for _ in range(1 if tier == 'quick' else 6):
+            runs.append((cap, rng.randrange(2 ** 31), n, sizes))
+    big = 4 * 1024 * 1024 + 13
+    runs.append((big, rng.randrange(2 ** 31), 12 if tier == 'quick' else 60, [big, 13, big + 1]))
+    lines = ['T %d %d %d %s' % (cap, seed, k, ' '.join(map(str, sizes))) for cap, seed, k, sizes in runs]
+    impl = run_parallel(binary, lines, 5, nproc=4)
+    for (cap, seed, k, sizes), line, il in zip(runs, lines, impl):
+        run.count('channel:two-threads')
+        run.count('channel:two-threads-messages', k)
+        run.case(line, True, sample={'two-threads': line, 'impl': il[:120]})
+        run.traces_validated += 1
+        f = dict(x.split('=', 1) for x in il.split(' ')[1:])
+        want = ','.join('%d:%d' % (i + 1, sizes[i % len(sizes)]) for i in range(k))
+        got = f.get('recv', '')
+        if got != want:
+            gl, wl = got.split(','), want.split(',')
+            pos = next((i for i, (a, b) in enumerate(zip(gl, wl)) if a != b), min(len(gl), len(wl)))
+            run.fail('C14 channel: two-thread run delivered %d of %d messages, first difference at position %d (exactly once, in order, intact)'
+                     % (len(gl), len(wl), pos), {'driver': 'channel', 'schedule': line, 'impl': il[:300]})
+        elif f.get('final') != '0' or f.get('extra') != '0':
+            run.fail('C14 channel: drained channel accounts %s bytes (extra message: %s)' % (f.get('final'), f.get('extra')),
+                     {'driver': 'channel', 'schedule': line, 'impl': il[:300]})
+        elif int(f.get('max', '0')) > cap + 2 * max(sizes):
+            run.broke('correspondence', 'channel-bounded', 'counter sampled at %s exceeds capacity + two messages (theorem C14_bounded): %s' % (f.get('max'), line))
+
+
+# ------------------------------------------------------------------------------------------------
 def run_corpus(run, binary, jbin):
+    chan = []
     for path in sorted(glob.glob(os.path.join(vlib.VERIF, 'corpus', 'C14', '*.json'))):
         c = json.load(open(path))
         run.count('corpus')
@@ -182,6 +430,12 @@ def run_corpus(run, binary, jbin):
                         continue
                 if il != ml:
                     run.broke('correspondence', 'corpus-' + os.path.basename(path), json.dumps({'request': line[:300], 'impl': il[:600], 'model': ml[:600]}))
+        elif c.get('driver') == 'channel':
+            for sc in c['schedules']:
+                v = valid_for(sc['cap'], sc['ops'])
+                if v is not None:
+                    chan.append((sc['cap'], v))
+    return chan
 
 
 def check(run):
@@ -197,8 +451,9 @@ def check(run):
     vlib.regen_facts(binary)
     run.check_proofs('C14', THEOREMS, extra_targets=['theories/Extract/Ex_wire.vo'])
     jbin = vlib.build_judge('wire')
-    run_corpus(run, binary, jbin)
+    extra = run_corpus(run, binary, jbin)
     run_bincode(run, binary, jbin, run.tier)
+    run_channel(run, binary, jbin, run.tier, extra)
     return run.finish(search=None)     # every case already ran the property oracle on the implementation
 
 
